@@ -47,6 +47,40 @@ CHECKS = {
              'that support both sides.',
         note='Trusted base: the law instantiation in props/c18.py; reference semantics only for NaN positions.',
         ref='DESIGN.md §7 C18'),
+    'C04': dict(
+        technique='reference-model monitor on step functions: dense offline evaluate() compared as a function of '
+                  'time with an exact (Fraction-time) reference at all break-points and mid-points; order and origin '
+                  'contracts on the returned list; time-shift defect model for the open finding',
+        text='Exploration over generated dense-time formulas x piecewise-constant signals with independent '
+             'break-points. Disagreements explained by the open finding D-dense-origin (inputs not starting at 0, '
+             'monitor right on the normalised inputs) are KNOWN-FINDING, all others VIOLATION.',
+        note='Trusted base: rtverif/ref_dense.py (pointwise definitions; dense since/until read as non-strict with '
+             'closed witness interval), function comparison on probe points, exact dyadic data.',
+        ref='DESIGN.md §7 C04'),
+    'C05': dict(
+        technique='schedule-metamorphic monitor: the same signal fed under several chunkings through the real online '
+                  'monitor; concatenated outputs checked for monotone stamps and, as step functions, against the real '
+                  'offline monitor/reference on everything they cover',
+        text='Exploration: generated past / pastified bounded-future dense formulas x signals x schedules (quick: 5-6 '
+             'schedules per signal; thorough: all 2^(n-1) aligned chunkings for n<=6).',
+        note='Trusted base: real dense offline monitor (cases where it disagrees with ref_dense are left to C04), '
+             'the covered-set reading of a concatenated output.',
+        ref='DESIGN.md §7 C05'),
+    'C10': dict(
+        technique='history-metamorphic monitor: monitor after (history; reset()) vs a brand-new monitor on the same '
+                  'post-reset inputs, including the sampling-violation counter',
+        text='Exploration over generated online specs (past, pastified, with sub-specs) x pre-reset histories (0..30 '
+             'updates, jittered stamps) x post-reset sequences.',
+        note='Trusted base: a fresh object of the same class as comparator.',
+        ref='DESIGN.md §7 C10'),
+    'C13': dict(
+        technique='closed-form oracle in exact rational arithmetic on the counter observed at the API boundary, '
+                  'online and offline; jitter-vs-ideal metamorphic run for the robustness values',
+        text='Exploration over stamp sequences with gaps placed on, just inside and just outside the tolerance '
+             'bounds x periods x units x tolerances.',
+        note='Trusted base: the 3-line closed form in props/c13.py; stamps are in the default unit (README examples '
+             '5/6).',
+        ref='DESIGN.md §7 C13'),
 }
 
 NOT_APPLICABLE = {}
